@@ -306,7 +306,12 @@ func bigDictCase(c *core.Ctx, n int, second bool) {
 			d.query("big", cond, nil, "tree")
 		}
 		d.query("big", &stmt.EqualsExpr{Key: "uid", Value: uid(last)}, []string{"uid", "g"}, "tree")
-		c.Note(fmt.Sprintf("big dictionary: %d values of one tag key, %d probes checked against brute force (%s)", hi, len(conds)+1, state))
+		// round 12: the real stage plans; no WHERE clause = every series of the metric (the metric ->
+		// series postings cross a container boundary in the second batch), also grouped
+		d.queryPlan("big", nil, nil, "plan-nocond")
+		d.queryPlan("big", nil, []string{"g"}, "plan-nocond")
+		d.queryPlan("big", &stmt.LikeExpr{Key: "uid", Value: uid(last)[:5] + "*"}, []string{"g"}, "plan-tree")
+		c.Note(fmt.Sprintf("big dictionary: %d values of one tag key, %d probes checked against brute force (%s)", hi, len(conds)+4, state))
 	}
 	write := func(lo, hi int) {
 		for i := lo; i < hi; i++ {
